@@ -177,8 +177,8 @@ abbrev K26 (s : S) : Prop := s.cleaned = false → s.phase = .Retry →
 response (then the response is stored and its client stream is gone) -/
 abbrev K27 (s : S) : Prop := s.cleaned = false → fwdPhase s.phase = true → s.urr = true →
   s.upReset = true ∨ (s.resp.isSome = true ∧ liveCount s.streams = 0)
-/-- K28: while forwarding, a wake-up is never spurious -/
-abbrev K28 (s : S) : Prop := s.cleaned = false → fwdPhase s.phase = true → s.notify = true →
+/-- K28: a wake-up is never spurious -/
+abbrev K28 (s : S) : Prop := s.cleaned = false → s.notify = true →
   s.urr = true ∨ s.upReset = true ∨ s.downReset = true
 
 /-- K29: a two-way request is completely sent upstream before the worker waits -/
